@@ -131,6 +131,20 @@ def run(ck, tier):
         tx = [c for c in ast.walk(fn.node) if isinstance(c, ast.Call) and U(c.func) in ('self.transaction.execute', 'self.execute')]
         ck.ob('R3', fn.qn, 'request API delegates to the locked execute', bool(tx), detail='no-delegation', loc=cx.floc(fn))
     ck.floor('R3', len(api), 10, 'request API methods')
+    # R3: the synchronous clients use their transaction manager only through its locked execute(): any other method of it
+    # (_transact, _send, _recv, getNextTID, addTransaction, ...) called from the client side runs outside the lock
+    nx = 0
+    for mn in ('pymodbus.client.sync', 'pymodbus.client.common'):
+        m = cx.idx.mod(mn)
+        for fn in list(m.funcs.values()) + [x for k in m.classes.values() for x in k.methods.values()]:
+            for c in ast.walk(fn.node):
+                if isinstance(c, ast.Call) and isinstance(c.func, ast.Attribute) and U(c.func.value).endswith('.transaction'):
+                    nx += 1
+                    ck.ob('R3', fn.qn, 'sync client calls only transaction.execute / reset on its transaction manager', c.func.attr in ('execute', 'reset'),
+                          detail='unlocked-manager-call %s' % c.func.attr, loc=cx.floc(fn, c),
+                          message='%s calls transaction.%s() directly: that runs outside the transaction lock, so its frame can be written while another '
+                                  'thread\'s transaction is between send and receive' % (fn.qn, c.func.attr))
+    ck.floor('R3', nx, 1, 'transaction-manager calls in the sync client modules')
     # R4
     if region is not None:
         todo, seen, bad = ['execute'], set(), []
